@@ -11,6 +11,9 @@ CONSTANTS W,            \* terminal width
           Lens,         \* lengths of single-line writes and overwrites
           Pairs,        \* <<len1, len2>> of two-line writes
           MaxN,         \* clear(n): n in 1..MaxN
+          Flags,        \* message-level flags of flagged single-line writes ({} = none)
+          Verbs,        \* verbosities a section may be set to ({} = never)
+          QuietOps,     \* BOOLEAN: set_quiet on single sections
           MaxSections, Depth
 
 VARIABLES hist, nextId
@@ -32,6 +35,11 @@ CONSTANT Pres
 LensQuick == {0, 2, 4, 5, 9}                                \* below / at / above the width, two wraps (W = 4)
 PairsQuick == {<<2, 5>>, <<9, 0>>, <<4, 4>>}
 LensSmall == {2, 5}
+NoFlags == {}
+FlagsQ == {1, 4}
+VerbsQ == {0, 1}
+PairsNone == {}
+LensOne == {5}
 LensMid == {2, 5, 9}
 PairsSmall == {<<0, 9>>}
 LensW7 == {0, 3, 7, 8, 15}
@@ -51,7 +59,11 @@ HOverwrite == \E i \in 1..Len(secs), n \in Lens : H(Overwrite(i, <<Line(nextId, 
 HClear == \E i \in 1..Len(secs) : H(Clear(i) /\ UNCHANGED nextId)
 HClearN == \E i \in 1..Len(secs), n \in 1..MaxN : H(ClearN(i, n) /\ UNCHANGED nextId)
 
-HNext == HCreate \/ HWrite1 \/ HWrite2 \/ HOverwrite \/ HClear \/ HClearN
+HWriteF == \E i \in 1..Len(secs), f \in Flags : H(WriteLineFlag(i, <<Line(nextId, 2)>>, f) /\ nextId' = nextId + 1)
+HQuiet == \E i \in 1..Len(secs) : QuietOps /\ H(SetQuiet(i, ~gate[i].quiet) /\ UNCHANGED nextId)
+HVerb == \E i \in 1..Len(secs), v \in Verbs : v # gate[i].verb /\ H(SetVerbosity(i, v) /\ UNCHANGED nextId)
+
+HNext == HCreate \/ HWrite1 \/ HWrite2 \/ HOverwrite \/ HClear \/ HClearN \/ HWriteF \/ HQuiet \/ HVerb
 HSpec == HInit /\ [][HNext]_hvars
 
 \* hist is a history variable only: two states that differ in hist alone behave alike
